@@ -12,19 +12,32 @@ class ScopesDriver:
         self.n = len(init["pc"])
         self.nsid = 0
         self.nact = 0
+        self.caught = {}
         self.w.start("1")
 
+    def _caught(self):
+        """what each task's catch-all caught last (identity-checked by World.classify against the raised objects)"""
+        for ev in self.w.events[self._ev_seen:]:
+            if ev[1] == "try" and ev[2] != "return":
+                tag = ev[2]
+                self.caught[ev[0]] = "E" if tag.startswith("body:") else "BaseE" if tag.startswith("bodybase:") else tag
+        self._ev_seen = len(self.w.events)
+
+    _ev_seen = 0
+
     def _obs(self):
+        self._caught()
         out = []
         for t in range(1, self.n + 1):
             name = str(t)
             st = self.w.status(name)
             if st == "gate" and name in self.w.at:
                 pr = self.w.at[name]
-                out.append(dict(pc="gate", p={T: (pr[T], pr[T + "d"]) for T in self.types}, ms=pr["ms"], tg=pr["tg"]))
+                out.append(dict(pc="gate", p={T: (pr[T], pr[T + "d"]) for T in self.types}, ms=pr["ms"], tg=pr["tg"],
+                                exc=self.caught.get(name, "none")))
             else:
                 pc = {"unborn": "unborn", "done": "done"}.get(st, st)
-                out.append(dict(pc=pc, p={T: (0, 0) for T in self.types}, ms=0, tg=0))
+                out.append(dict(pc=pc, p={T: (0, 0) for T in self.types}, ms=0, tg=0, exc=self.caught.get(name, "none")))
         return tuple(out)
 
     def apply(self, name, args):
@@ -50,6 +63,10 @@ class ScopesDriver:
                     w.do(str(t), "ascope", self.nsid, direct, disps, None)
         elif name in ("Leave", "End"):
             w.do(str(args[0]), "leave", "return")
+        elif name == "Try":
+            w.do(str(args[0]), "try")
+        elif name == "Raise":
+            w.do(str(args[0]), "leave", args[1])
         elif name == "Start":
             t, u, how = args
             w.do(str(t), "spawn" if how == "spawn" else "plainspawn", str(u))
@@ -91,7 +108,11 @@ def gen_trace(rnd, ntasks=4, nops=28, max_depth=6):
             t = rnd.choice(sorted(alive))
             ch = []
             if len(frames[t]) < max_depth:
-                ch += ["enter"] * 4
+                ch += ["enter"] * 4 + ["try"]
+            tries = [i for i, (kind, sid) in enumerate(frames[t]) if kind == "try"]
+            if tries and not any(kind == "ascope" and any(grp.get(u) == sid for u in alive)
+                                 for kind, sid in frames[t][tries[-1]:]):
+                ch += ["raise"] * 2
             if frames[t]:
                 kind, sid = frames[t][-1]
                 if kind != "ascope" or not any(grp.get(u) == sid for u in alive):
@@ -117,6 +138,12 @@ def gen_trace(rnd, ntasks=4, nops=28, max_depth=6):
             elif c == "leave":
                 frames[t].pop()
                 name, args = "Leave", [t]
+            elif c == "try":
+                frames[t].append(("try", 0))
+                name, args = "Try", [t]
+            elif c == "raise":
+                del frames[t][tries[-1]:]
+                name, args = "Raise", [t, rnd.choice(["E", "BaseE"])]
             elif c == "start":
                 born += 1
                 how = rnd.choice(["spawn", "plain"]) if can_spawn else "plain"
@@ -138,6 +165,6 @@ def gen_trace(rnd, ntasks=4, nops=28, max_depth=6):
 
 
 TRACE_KW = dict(
-    variables=["st", "on", "ms", "tg", "frames", "base", "pc", "grp", "nsid", "nops", "actor", "obs"],
+    variables=["st", "on", "ms", "tg", "frames", "base", "pc", "grp", "caught", "nsid", "nops", "actor", "obs"],
     constants=dict(NTasks=4, Types='{"A", "B"}', Vals="{1, 2}", MaxDepth=6, MaxOps=100000, SupKind='"tiny"', Bug='"none"'),
-    config_vars=[], actions=dict(Enter=4, Leave=1, Start=3, End=1), invariants=["LexicalLookup", "ScopeIdsFresh"])
+    config_vars=[], actions=dict(Enter=4, Leave=1, Start=3, End=1, Try=1, Raise=2), invariants=["LexicalLookup", "ScopeIdsFresh"])
